@@ -160,19 +160,23 @@ func (valdec mapDecoder) decodeObjectAsMap(dec *Decoder, p interface{}, tag byte
 	count := len(structInfo.names)
 	valdec.t.UnsafeSet(mp, valdec.t.UnsafeMakeMap(count))
 	dec.AddReference(p)
-	if fields := structInfo.fields; fields != nil {
-		for _, name := range structInfo.names {
-			field := fields[name]
+	fields := structInfo.fields
+	for i := range structInfo.names {
+		name := structInfo.names[i]
+		var v interface{}
+		if field, ok := fields[name]; ok {
 			vp := field.Type.UnsafeNew()
 			field.Decode(dec, field.Type.Type1(), vp)
-			v := field.Type.UnsafeIndirect(vp)
-			valdec.t.UnsafeSetIndex(mp, reflect2.PtrOf(name), reflect2.PtrOf(&v))
-		}
-	} else {
-		for _, name := range structInfo.names {
-			var v interface{}
+			v = field.Type.UnsafeIndirect(vp)
+		} else {
+			// the class is unknown here, or the sender has a field this struct does not have
 			dec.decodeInterface(dec.NextByte(), &v)
-			valdec.t.UnsafeSetIndex(mp, reflect2.PtrOf(name), reflect2.PtrOf(&v))
+		}
+		if valdec.kt.Kind() == reflect.Interface {
+			// the key must be boxed; reflect keeps the boxed string alive on the heap
+			reflect.ValueOf(p).Elem().SetMapIndex(reflect.ValueOf(name), reflect.ValueOf(&v).Elem())
+		} else {
+			valdec.t.UnsafeSetIndex(mp, unsafe.Pointer(&name), unsafe.Pointer(&v))
 		}
 	}
 	dec.Skip()
